@@ -157,4 +157,52 @@ theorem mul_exact (a b r : Nat) (ha : Finite a) (hb : Finite b) (hr : Finite r) 
     (h : toReal a * toReal b = toReal r) : toReal (mul a b) = toReal r :=
   le_antisymm (mul_le a b r ha hb hr (by rw [h]; exact hrfit) hrfit h.le) (mul_ge a b r ha hb hr (by rw [h]; exact hrfit) hrfit h.ge)
 
+/-- `fma` as one rounding of the exact `a*b + c` -/
+theorem fma_form (a b c : Nat) (ha : Finite a) (hb : Finite b) (hc : Finite c) :
+    ∃ n m e, valR n m e = toReal a * toReal b + toReal c ∧ (fma a b c = roundPack n m e ∨ (m = 0 ∧ ∃ s, fma a b c = signBit s)) := by
+  obtain ⟨n1, m1, e1, h1⟩ := ha
+  obtain ⟨n2, m2, e2, h2⟩ := hb
+  obtain ⟨n3, m3, e3, h3⟩ := hc
+  have hprod : valR n1 m1 e1 * valR n2 m2 e2 = valR (n1 != n2) (m1 * m2) (e1 + e2) := by
+    unfold valR; rw [zpow_add₀ (by norm_num : (2:ℝ) ≠ 0)]; push_cast
+    cases n1 <;> cases n2 <;> simp <;> ring
+  have hex := addExact_val (n1 != n2) (m1 * m2) (e1 + e2) n3 m3 e3
+  rw [← hprod, ← toReal_of_decode a _ _ _ h1, ← toReal_of_decode b _ _ _ h2, ← toReal_of_decode c _ _ _ h3] at hex
+  refine ⟨_, _, _, hex, ?_⟩
+  have hfma : fma a b c = (if (addExact (n1 != n2) (m1 * m2) (e1 + e2) n3 m3 e3).2.1 = 0 then signBit ((n1 != n2) && n3)
+      else roundPack (addExact (n1 != n2) (m1 * m2) (e1 + e2) n3 m3 e3).1 (addExact (n1 != n2) (m1 * m2) (e1 + e2) n3 m3 e3).2.1
+        (addExact (n1 != n2) (m1 * m2) (e1 + e2) n3 m3 e3).2.2) := by
+    unfold fma; rw [h1, h2, h3]
+  by_cases hz : (addExact (n1 != n2) (m1 * m2) (e1 + e2) n3 m3 e3).2.1 = 0
+  · right; exact ⟨hz, _, by rw [hfma, if_pos hz]⟩
+  · left; rw [hfma, if_neg hz]
+
+theorem fma_le (a b c r : Nat) (ha : Finite a) (hb : Finite b) (hc : Finite c) (hr : Finite r)
+    (hfit : |toReal a * toReal b + toReal c| < (2:ℝ) ^ (127:ℤ)) (hrfit : |toReal r| < (2:ℝ) ^ (127:ℤ))
+    (h : toReal a * toReal b + toReal c ≤ toReal r) : toReal (fma a b c) ≤ toReal r := by
+  obtain ⟨n, m, e, hv, hform⟩ := fma_form a b c ha hb hc
+  rcases hform with hf | ⟨hm, s, hs⟩
+  · rw [hf]
+    have hfit' : (m:ℝ) * (2:ℝ) ^ e < (2:ℝ) ^ (127:ℤ) := by rw [← abs_valR n m e, hv]; exact hfit
+    exact (round_le n m e r hr hfit' hrfit (by rw [hv]; exact h)).2
+  · rw [hs, (toReal_signBit s).2]
+    rw [hm, valR_zero] at hv
+    linarith
+
+theorem fma_ge (a b c r : Nat) (ha : Finite a) (hb : Finite b) (hc : Finite c) (hr : Finite r)
+    (hfit : |toReal a * toReal b + toReal c| < (2:ℝ) ^ (127:ℤ)) (hrfit : |toReal r| < (2:ℝ) ^ (127:ℤ))
+    (h : toReal r ≤ toReal a * toReal b + toReal c) : toReal r ≤ toReal (fma a b c) := by
+  obtain ⟨n, m, e, hv, hform⟩ := fma_form a b c ha hb hc
+  rcases hform with hf | ⟨hm, s, hs⟩
+  · rw [hf]
+    have hfit' : (m:ℝ) * (2:ℝ) ^ e < (2:ℝ) ^ (127:ℤ) := by rw [← abs_valR n m e, hv]; exact hfit
+    exact (round_ge n m e r hr hfit' hrfit (by rw [hv]; exact h)).2
+  · rw [hs, (toReal_signBit s).2]
+    rw [hm, valR_zero] at hv
+    linarith
+
+theorem fma_exact (a b c r : Nat) (ha : Finite a) (hb : Finite b) (hc : Finite c) (hr : Finite r) (hrfit : |toReal r| < (2:ℝ) ^ (127:ℤ))
+    (h : toReal a * toReal b + toReal c = toReal r) : toReal (fma a b c) = toReal r :=
+  le_antisymm (fma_le a b c r ha hb hc hr (by rw [h]; exact hrfit) hrfit h.le) (fma_ge a b c r ha hb hc hr (by rw [h]; exact hrfit) hrfit h.ge)
+
 end F32
